@@ -120,6 +120,20 @@ def corruptions(g, rng):
     p = clone()
     del p.step(last.name).fields["input"]["tag"]
     yield "missing-required-input", p
+    for s_ in prog.steps:
+        if s_.kind == "foreach":
+            p = clone()
+            del p.step(s_.name).fields["items"]
+            yield "missing-required-foreach-items", p
+            break
+    # stage inputs that the provider of this very step does not offer: stop_if on a step whose plugin has no cancellation handler
+    if last is not first:
+        for kind, val in (("constant", False), ("expr", Expr(Ref(first.name, "outputs", "error"))), ("input-expr", Expr(In("flag")))):
+            p = clone()
+            p.step(last.name).schema = "nocancel"
+            p.step(last.name).fields["stop_if"] = val
+            p.scripts_needed = {p.step(last.name).src: {"schema": "nocancel"}}
+            yield "stop-if-without-cancel-handler-" + kind, p
     p = clone()
     p.step(last.name).fields["enabled"] = Expr(In("tag"))
     yield "illtyped-enabled-string", p
@@ -185,7 +199,7 @@ def run(check):
                   "program the graph read through DAG() (nodes with kinds, typed outstanding dependencies) must equal the graph derived from the program by "
                   "vlib/dagref.py (lifecycle edges, one dependency per reference of the kind its tag requires, nothing else); and every single-point corruption "
                   "(cycles through input/wait_for/enabled/stop_if/deploy, self reference, unknown step/stage/output/field/input field in step inputs and outputs, "
-                  "ill-typed literals and expressions per field type, missing required input, unknown keys, wrong `step:`, no outputs) must be rejected by Prepare; "
+                  "ill-typed literals and expressions per field type, missing required input (plugin input, loop items), stop_if on a step without cancellation handler, unknown keys, wrong `step:`, no outputs) must be rejected by Prepare; "
                   "non-trivial = program with >=1 cross-step reference; distinct = (shape, graph size) and (corruption kind, shape)")
     check.assumptions = ["expected lifecycle edges are those of the two step providers as read from their sources (Appendix A)"]
     gs = programs(check, n)
@@ -205,7 +219,7 @@ def run(check):
             continue
         rng = random.Random(derive_seed(check.seed, "c10-cor", gi))
         for kind, p in corruptions(g, rng):
-            case = {"id": "c10-%05d" % idx, "files": p.files(), "scripts": {}, "runs": []}
+            case = {"id": "c10-%05d" % idx, "files": p.files(), "scripts": getattr(p, "scripts_needed", {}), "runs": []}
             idx += 1
             items.append((case, g, kind))
             cor_n += 1
